@@ -60,6 +60,29 @@ Definition show_front (f : front) : pystr :=
   end.
 Definition show_oo (r : option (option pystr)) : pystr :=
   match r with None => str "none" | Some None => str "error" | Some (Some l) => str "loc:" ++ l end.
+Definition up3s (s : pystr) : option (pystr * (pystr * pystr)) :=
+  match urlsplit s with UOk u => Some (u_scheme u, (u_netloc u, u_path u)) | UValueError => None | UOutside => Some ([0], ([0], [0])) end.
+(* b = what was observed on the implementation: "ok:<href>", "coll:<href of the collection, no trailing slash>"
+   (the whole collection was selected: with or without trailing slash), "unobservable" (decoded, then refused by a
+   storage rule), or the name of an outcome; a moved item shows its new path without a trailing slash *)
+Definition run_dest (c : pystr * (pystr * pystr)) : pystr :=
+  match decode_destination (fst c) (fst (snd c)) (snd (snd c)) with
+  | DOk [47] => str "skip"      (* do_MOVE answers like "outside the prefix" when the target is the root collection *)
+  | d => show_dres (fst (snd c)) d
+  end.
+Definition eq_dres_obs (a b : pystr) :=
+  eqs a (str "outside") || (eqs b (str "unobservable") && startswith a (str "ok:")) || eqs a b
+  || (startswith b (str "ok:") && eqs a (b ++ str "/"))
+  || (startswith b (str "coll:") && (eqs a (str "ok:" ++ skipn 5 b) || eqs a (str "ok:" ++ skipn 5 b ++ str "/"))).
+Record fcase := { f_cfg : pystr; f_rp : bool; f_x : option pystr; f_s : option pystr; f_pi : pystr }.
+Definition run_front (c : fcase) : pystr := show_front (front_end (f_cfg c) (f_rp c) (f_x c) (f_s c) (f_pi c)).
+Definition run_get (c : fcase) : pystr :=
+  match front_end (f_cfg c) (f_rp c) (f_x c) (f_s c) (f_pi c) with
+  | FCall b p => show_oo (get_location b p (f_pi c))
+  | f => show_front f
+  end.
+Definition run_multiget (bh : pystr * pystr) : pystr := show_dres (fst bh) (decode_multiget (fst bh) (snd bh)).
+Definition show_os (o : option pystr) : pystr := match o with Some h => str "ok:" ++ h | None => str "error" end.
 """
 
 
@@ -179,8 +202,292 @@ def stdlib_suites(ctx):
                                  " http://", "ht\ntp://", "tel://", "dav://"])
                     + rng.choice(hosts) + X.rand_url(rng, 8))
     run_suite(ctx, "urlparse", "up3", [(u, py_up3(u)) for u in urls], enc_str, enc_up3, "eq_up3")
+    run_suite(ctx, "urlsplit", "up3s", [(u, py_up3s(u)) for u in urls], enc_str, enc_up3, "eq_up3")
     ctx.samples.append(dict(function="unquote", input="%C3%A9%zz%c3", output=urllib.parse.unquote("%C3%A9%zz%c3")))
     return strs, names
+
+
+def py_up3s(s):
+    try:
+        u = urllib.parse.urlsplit(s)
+        return (u.scheme, u.netloc, u.path)
+    except ValueError:
+        return None
+
+
+# ------------------------------------------------------------------------------- 2b. Radicale's reading / emitting sites
+CONF = {"auth": {"type": "none"}, "rights": {"type": "vlib.x_c18_rights"}, "web": {"type": "none"}}
+HOST = "127.0.0.1"
+
+
+def enc_fcase(c):
+    cfg, rp, x, sn, pi = c
+    return "{| f_cfg := %s; f_rp := %s; f_x := %s; f_s := %s; f_pi := %s |}" % (
+        enc_str(cfg), enc_bool(rp), enc_opt(enc_str)(x), enc_opt(enc_str)(sn), enc_str(pi))
+
+
+def front_env(c, method):
+    cfg, rp, x, sn, pi = c
+    env = {"REQUEST_METHOD": method, "PATH_INFO": pi}
+    if x is not None:
+        env["HTTP_X_SCRIPT_NAME"] = x
+    if sn is not None:
+        env["SCRIPT_NAME"] = sn
+    if rp:
+        env["HTTP_X_FORWARDED_FOR"] = "10.0.0.1"
+    return env
+
+
+def gen_front_cases(ctx, n):
+    rng = ctx.rng
+    prefixes = ["", "/radicale", "/my app", "/a/b", "/é", "/x%20y", "/.web", "/r"]
+    broken = ["radicale", "/", "//", "/radicale/", "/radicale//", "r/", "/a//b", "/a/../b", "/a/./b", " /a"]
+    paths = ["", "/", "//", "/u/", "/u/cal/", "/u/cal/a.ics", "/.web", "/.web/", "//.web", "/.web//", "/.web/x/../", "/.web/index.html",
+             "/.well-known/caldav", "/.well-known/carddav/", "/foo/.well-known/caldav", "/.well-known", "/.well-known/foo",
+             "/x/.well-known/", "/.well-known/caldav/x", "/u/../v/", "/u/./c", "/radicale", "/radicale/", "/radicale2/cal/",
+             "/radicale/radicale/cal/", "/r", "/ralph/", "/my app/u/", "/my app", "/my apple/", "/a/b/c", "/a/bc", "/é/x", "/éx"]
+    cases = []
+    for cfg in ["", "/radicale", "/my app", "/r"]:
+        for pi in paths:
+            for rp in (False, True):
+                for x in (None, "/radicale", "/a/b"):
+                    cases.append((cfg, rp, x, None, pi))
+    while len(cases) < n:
+        cfg = rng.choice(["", "", "", "/radicale", "/my app", "/r"])
+        rp = rng.random() < 0.5
+        x = rng.choice([None, None] + prefixes + broken + [X.rand_prefix(rng)])
+        sn = rng.choice([None, None] + prefixes + broken + [X.rand_prefix(rng)])
+        base = rng.choice([cfg, x or "", sn or "", ""])
+        tail = rng.choice(paths + ["/" + X.rand_component(rng) + rng.choice(["", "/"]), X.rand_url(rng, 6)])
+        pi = rng.choice([tail, base + tail, base + tail, base, base.rstrip("/") + "x" + tail])
+        cases.append((cfg, rp, x, sn, pi))
+    return cases
+
+
+def impl_front(srvs, c, method):
+    """Outcome of the real _handle_request for a front case: text in the format of show_front / show_oo."""
+    from vlib.impl import Server
+    cfg = c[0]
+    if cfg not in srvs:
+        conf = dict(CONF)
+        conf["server"] = {"script_name": cfg}
+        srv = Server(conf)
+        srvs[cfg] = (srv, X.install_probe(srv))
+    srv, seen = srvs[cfg]
+    del seen[:]
+    st, h, body = X.call_app(srv, front_env(c, method))
+    return st, h, body, list(seen)
+
+
+def front_suites(ctx):
+    srvs = {}
+    try:
+        cases = gen_front_cases(ctx, ctx.n(1500, 30000))
+        out_front, out_get = [], []
+        for c in cases:
+            st, h, body, seen = impl_front(srvs, c, "PROBE")
+            if seen:
+                o = "call:%s|%s" % (seen[0][0], seen[0][1])
+            elif st == 301:
+                o = "redirect:" + h.get("Location", "")
+            else:
+                o = {404: "404", 400: "400", 500: "500"}.get(st, "status-%d" % st)
+            out_front.append((c, o))
+            ctx.count("front:" + o.split(":")[0])
+            st, h, body, seen = impl_front(srvs, c, "GET")
+            if st in (301, 302):
+                # the well-known redirect is 301 from _handle_request, the others come from get.py / web
+                o2 = ("redirect:" if (o.startswith("redirect:")) else "loc:") + h.get("Location", "")
+            elif st in (400, 500) and o in ("400", "500"):
+                o2 = o
+            elif st == 404 and o == "404":
+                o2 = "404"
+            else:
+                o2 = "none"
+            out_get.append((c, o2))
+            ctx.count("get:" + o2.split(":")[0])
+        run_suite(ctx, "front_end", "run_front", out_front, enc_fcase, enc_str, "eqs", key=repr)
+        run_suite(ctx, "get_location", "run_get", out_get, enc_fcase, enc_str, "eqs", key=repr)
+        ctx.samples.append(dict(site="_handle_request", case=repr(cases[-1]), outcome=out_front[-1][1]))
+    finally:
+        for srv, _ in srvs.values():
+            srv.close()
+
+
+def pathinfo_suite(ctx, strs):
+    rng = ctx.rng
+    targets = [s for s in strs if all(ord(ch) < 256 for ch in s)][:ctx.n(4000, 60000)]
+    for _ in range(ctx.n(500, 10000)):
+        p = "/" + "/".join(X.rand_component(rng) for _ in range(rng.randint(1, 3)))
+        q = urllib.parse.quote(p)
+        targets.append(rng.choice([q, q + "?x=%2F&y", q.lower(), q + "#f", p.encode("utf-8").decode("latin-1")]))
+    run_suite(ctx, "pathinfo", "pathinfo_of_target", [(t, X.get_environ_only(t)) for t in targets], enc_str, enc_str, "eqs")
+
+
+def make_href_suite(ctx):
+    from radicale import xmlutils, pathutils
+    rng = ctx.rng
+    cases = []
+    for _ in range(ctx.n(600, 20000)):
+        base = X.rand_prefix(rng)
+        p = pathutils.sanitize_path("/" + "/".join(X.rand_component(rng, allow_dot_start=True) for _ in range(rng.randint(0, 3)))
+                                    + rng.choice(["", "/"]))
+        if rng.random() < 0.05:
+            p = p + "\ud800"      # a lone surrogate (file name that is not UTF-8): quote raises
+        try:
+            o = "ok:" + xmlutils.make_href(base, p)
+        except UnicodeEncodeError:
+            o = "error"
+        cases.append(((base, p), o))
+    run_suite(ctx, "make_href", "(fun bp => show_os (make_href (fst bp) (snd bp)))", cases, enc_pair, enc_str, "eqs", key=repr)
+
+
+def multiget_suite(ctx):
+    from vlib.impl import Server, event
+    rng = ctx.rng
+    n = ctx.n(700, 15000)
+    names = ["a b.ics", "é;x?.ics"]
+    with Server(CONF) as srv:
+        srv.mkcol("/u/")
+        srv.mkcalendar("/u/cal/")
+        for i, nm in enumerate(names):
+            assert srv.put("/u/cal/" + nm, event("mg%d" % i))[0] == 201
+        cases = []
+        fixed = ["/u/cal/a%20b.ics", "/u/cal/a b.ics", "/u/cal/%C3%A9%3Bx%3F.ics", "/u/cal/é;x?.ics", "/u/cal/é;x%3F.ics",
+                 "/u/cal/a;b.ics", "/u/cal/a%3Bb.ics", "/u/cal/", "/u/cal", "/u/", "/", "", "http://h/u/cal/a%20b.ics",
+                 "//h/u/cal/a%20b.ics", "/u/cal/a%2520b.ics", "/u/cal/a+b.ics", "/u/cal/x#y", "/u/cal/x%23y", "/u/cal/x?y", "/u/cal/x%3Fy",
+                 "/u/cal/%2e%2e/x", "/u/cal/../x", "/u/cal/%2Fx", "/u/cal/x%2F", "/u/cal/x/", " /u/cal/x", "/u/cal/x ", "/u/cal/x\n",
+                 "/u/cal/%ff", "/u/cal/%C3", "/u/cal/%zz", "/u/cal/%", "http://[::1/u/cal/x", "http://[::1]/u/cal/x", "/u/cal/;", "/u/cal/;x/y;z",
+                 "/u/cal/x;y/", "http:/u/cal/x", "http:x", "a:b", "/u/cal/a:b", "u/cal/x", "mailto:u@h"]
+        for k in range(n):
+            base = rng.choice(["", "", "/radicale", "/my app", X.rand_prefix(rng)])
+            if k < len(fixed):
+                href = fixed[k]
+                if base:
+                    href = rng.choice([href, urllib.parse.quote(base) + href])
+            else:
+                r = rng.random()
+                comp = rng.choice(names + [X.rand_component(rng)])
+                if r < 0.5:
+                    href = urllib.parse.quote(base + "/u/cal/" + comp)
+                elif r < 0.7:
+                    href = base + "/u/cal/" + comp                         # raw, unencoded
+                elif r < 0.85:
+                    href = rng.choice(["http://h", "https://x:1", "//h", ""]) + urllib.parse.quote(base) + X.rand_url(rng, 8)
+                else:
+                    href = X.rand_url(rng, 10)
+            if not href or not X.xml_ok(href) or not X.xml_ok(base):
+                continue            # <D:href/> has text None: urlsplit(None) fails an assertion (500); not a URL
+            env = {"REQUEST_METHOD": "REPORT", "PATH_INFO": "/u/cal/"}
+            if base:
+                env["HTTP_X_SCRIPT_NAME"] = base
+            st, h, body = X.call_app(srv, env, X.multiget_body([href]))
+            if st == 207:
+                rs = X.response_status_map(body)
+                if not rs:
+                    o = "skip"
+                elif len(rs) == 1:
+                    o = "ok:" + rs[0][0]
+                elif len(rs) == len(names) and all(r[1] == 200 for r in rs):
+                    o = "coll:" + urllib.parse.quote(base + "/u/cal")      # the collection itself was referenced
+                else:
+                    o = "unexpected:%r" % (rs,)
+            elif st == 400:
+                o = "raise"                                               # do_REPORT turns the ValueError into 400
+            else:
+                o = "status-%d" % st
+            ctx.count("multiget:" + o.split(":")[0])
+            cases.append(((base, href), o))
+        run_suite(ctx, "multiget", "run_multiget", cases, enc_pair, enc_str, "eq_dres_obs", key=repr)
+        ctx.samples.append(dict(site="multiget", base=cases[-1][0][0], href=cases[-1][0][1], outcome=cases[-1][1]))
+
+
+def find_uid(folder, uid):
+    root = os.path.join(folder, "collection-root")
+    hits = []
+    for d, dirs, files in os.walk(root):
+        if ".Radicale.cache" in d:
+            continue
+        for f in files:
+            if f.startswith(".Radicale"):
+                continue
+            try:
+                with open(os.path.join(d, f), "rb") as fh:
+                    if ("UID:%s\r" % uid).encode() in fh.read().replace(b"\n", b"\r\n").replace(b"\r\r", b"\r"):
+                        hits.append("/" + os.path.relpath(os.path.join(d, f), root))
+            except OSError:
+                pass
+    return hits
+
+
+def destination_suite(ctx):
+    from vlib.impl import Server, event
+    from radicale.app import move as move_mod
+    rng = ctx.rng
+    n = ctx.n(500, 10000)
+    with Server(CONF) as srv:
+        srv.mkcol("/u/")
+        srv.mkcalendar("/u/cal/")
+        srv.mkcalendar("/u/cal2/")
+        cases = []
+        fixed = [("http://127.0.0.1", "/u/cal/b%20c.ics"), ("http://127.0.0.1", "/u/cal/c;d.ics"), ("http://127.0.0.1", "/u/cal/c%3Bd.ics"),
+                 ("http://127.0.0.1", "/u/cal/%C3%A9.ics"), ("http://127.0.0.1", "/u/cal/é.ics"), ("http://127.0.0.1:80", "/u/cal/x.ics"),
+                 ("http://127.0.0.1:8080", "/u/cal/x.ics"), ("https://127.0.0.1", "/u/cal/x.ics"), ("https://127.0.0.1:80", "/u/cal/x.ics"),
+                 ("", "/u/cal/x.ics"), ("//127.0.0.1", "/u/cal/x.ics"), ("http://127.0.0.1", "/u/cal/x%3Fy.ics"),
+                 ("http://127.0.0.1", "/u/cal/x?y.ics"), ("http://127.0.0.1", "/u/cal/x%23y.ics"), ("http://127.0.0.1", "/u/cal/x#y.ics"),
+                 ("http://127.0.0.1", "/u/cal/x%25y.ics"), ("http://127.0.0.1", "/u/cal/a+b.ics"), ("http://127.0.0.1", "/u/cal2/m.ics"),
+                 ("http://127.0.0.1:x", "/u/cal/x.ics"), ("http://127.0.0.1:99999", "/u/cal/x.ics"), ("http://u:p@127.0.0.1", "/u/cal/x.ics"),
+                 ("http://[::1", "/u/cal/x.ics"), ("HTTP://127.0.0.1", "/u/cal/x.ics"), ("http://127.0.0.1", "/u/cal/%2e%2e/cal2/y.ics"),
+                 ("http://127.0.0.1", "/u/cal/x%2Fy.ics"), ("http://127.0.0.1", "/v/cal/x.ics"), ("http://127.0.0.1", "/u/cal/x.ics;p=1"),
+                 ("http://127.0.0.1", "/u/cal/x%20.ics"), ("http://127.0.0.1", "/u/cal/%ffz.ics"), ("http://127.0.0.1:080", "/u/cal/x.ics")]
+        for k in range(n):
+            base = rng.choice(["", "", "/radicale", "/my app", X.rand_prefix(rng)])
+            if k < len(fixed):
+                pre, tail = fixed[k]
+                dest = pre + urllib.parse.quote(base) + tail
+            else:
+                r = rng.random()
+                comp = X.rand_component(rng)
+                pre = rng.choice(["http://127.0.0.1"] * 6 + ["http://127.0.0.1:80", "https://127.0.0.1", "http://other", "", "http://127.0.0.1:81"])
+                if r < 0.55:
+                    dest = pre + urllib.parse.quote(base + rng.choice(["/u/cal/", "/u/cal/", "/u/cal2/"]) + comp)
+                elif r < 0.75:
+                    dest = pre + base + "/u/cal/" + comp
+                else:
+                    dest = pre + urllib.parse.quote(base) + rng.choice(["/u/cal/", "/u/", "/"]) + X.rand_url(rng, 6)
+            try:
+                dest.encode("latin-1")
+            except UnicodeEncodeError:
+                pass                                            # in-process: the environ carries the str as it is
+            uid = "mv%d" % k
+            assert srv.put("/u/cal/src%d.ics" % k, event(uid))[0] == 201
+            env = {"REQUEST_METHOD": "MOVE", "PATH_INFO": "/u/cal/src%d.ics" % k, "HTTP_HOST": HOST, "HTTP_DESTINATION": dest,
+                   "HTTP_OVERWRITE": "T"}
+            if base:
+                env["HTTP_X_SCRIPT_NAME"] = base
+            import wsgiref.util
+            probe_env = dict(env)
+            wsgiref.util.setup_testing_defaults(probe_env)
+            sn = move_mod.get_server_netloc(probe_env, force_port=True)
+            st, h, body = X.call_app(srv, env)
+            where = find_uid(srv.folder, uid)
+            if st in (201, 204) and len(where) == 1:
+                o = "ok:" + urllib.parse.quote(base + where[0])
+            elif st == 502:
+                o = "remote"
+            elif st == 500:
+                o = "raise"
+            elif st in (401, 403) and b"Access to the requested resource forbidden" in body:
+                o = "skip"
+            else:
+                o = "unobservable"                              # 409 / 403 refused / 400: decoded, then refused by the storage rules
+            ctx.count("destination:" + o.split(":")[0])
+            cases.append(((sn, (base, dest)), o))
+            for w in where:
+                srv.request("DELETE", w)
+        run_suite(ctx, "destination", "run_dest", cases,
+                  lambda c: "(%s, (%s, %s))" % (enc_str(c[0]), enc_str(c[1][0]), enc_str(c[1][1])), enc_str, "eq_dres_obs", key=repr)
+        ctx.samples.append(dict(site="MOVE Destination", case=repr(cases[0][0]), outcome=cases[0][1]))
 
 
 def run(ctx):
@@ -197,4 +504,9 @@ def run(ctx):
         "bracketed (IPv6) and non-ASCII netlocs in Destination / href are outside the model (ipaddress, NFKC checks of urlsplit)",
     ]
     ctx.prove()
-    stdlib_suites(ctx)
+    strs, names = stdlib_suites(ctx)
+    pathinfo_suite(ctx, strs)
+    make_href_suite(ctx)
+    front_suites(ctx)
+    multiget_suite(ctx)
+    destination_suite(ctx)
